@@ -26,6 +26,7 @@ pub struct Run {
     pub stdout: Vec<u8>,
     pub stderr: Vec<u8>,
     pub timed_out: bool,
+    pub elapsed_ms: u64,
 }
 
 impl Run {
@@ -38,8 +39,18 @@ impl Run {
     pub fn stderr_str(&self) -> String {
         String::from_utf8_lossy(&self.stderr).into_owned()
     }
+    /// The child hit the address-space cap the harness imposes (see `ADDRESS_SPACE_LIMIT`).
+    pub fn allocation_failed(&self) -> bool {
+        if !CAP_ADDRESS_SPACE.load(Ordering::Relaxed) {
+            return false;
+        }
+        let e = self.stderr_str();
+        (self.signal == Some(libc::SIGABRT) && e.contains("memory allocation of") && !e.contains("panicked at"))
+            || e.contains("failed to allocate an alternative stack")
+            || (e.contains("failed to spawn thread") && (e.contains("WouldBlock") || e.contains("Cannot allocate memory")))
+    }
     pub fn panicked(&self) -> bool {
-        self.code == Some(101) || self.signal.is_some() || self.stderr_str().contains("panicked at")
+        !self.allocation_failed() && (self.code == Some(101) || self.signal.is_some() || self.stderr_str().contains("panicked at"))
     }
     /// A clean failure: non-zero exit, a diagnostic on stderr, no panic.
     pub fn clean_failure(&self) -> bool {
@@ -69,6 +80,9 @@ pub fn cut(s: &str, n: usize) -> String {
 }
 
 const TIMEOUT: Duration = Duration::from_secs(60);
+pub const ADDRESS_SPACE_LIMIT: u64 = 1 << 29; // 512 MiB
+/// Enabled by the checks that feed hostile bytes to the binary (C17).
+pub static CAP_ADDRESS_SPACE: std::sync::atomic::AtomicBool = std::sync::atomic::AtomicBool::new(false);
 
 struct Watch {
     running: Mutex<HashMap<u32, Instant>>,
@@ -133,8 +147,23 @@ pub fn run_bin<S: AsRef<str>>(ctx: &Ctx, bin: &Path, args: &[S], input: Input<'_
             cmd.stdin(Stdio::piped());
         }
     }
+    let started = Instant::now();
     let mut child = cmd.spawn().unwrap_or_else(|e| panic!("cannot spawn {}: {e}", bin.display()));
     let pid = child.id();
+    // Protect the sandbox: corrupt inputs can declare multi-gigabyte buffers (BGZF ISIZE, BCF record
+    // lengths, npy header length). Cap the child's address space right after the spawn (prlimit on
+    // the child keeps the fast posix_spawn path; the child cannot allocate much before it has read
+    // its input). An allocation failure under this cap is reported separately
+    // (`Run::allocation_failed`) and is not a property violation.
+    if CAP_ADDRESS_SPACE.load(Ordering::Relaxed) {
+        let lim = libc::rlimit {
+            rlim_cur: ADDRESS_SPACE_LIMIT,
+            rlim_max: ADDRESS_SPACE_LIMIT,
+        };
+        unsafe {
+            libc::prlimit(pid as libc::pid_t, libc::RLIMIT_AS, &lim, std::ptr::null_mut());
+        }
+    }
     watch().running.lock().unwrap().insert(pid, Instant::now());
     let output = std::thread::scope(|scope| {
         if let Input::Pipe(bytes) = &input {
@@ -149,6 +178,18 @@ pub fn run_bin<S: AsRef<str>>(ctx: &Ctx, bin: &Path, args: &[S], input: Input<'_
     });
     watch().running.lock().unwrap().remove(&pid);
     let timed_out = watch().killed.lock().unwrap().remove(&pid);
+    if (timed_out || started.elapsed().as_secs() >= 5) && std::env::var("VERIF_DUMP_SLOW").is_ok() {
+        let dump = ctx.verif_dir.join("work").join(format!("slowdump-{}-{}", std::process::id(), pid));
+        let _ = std::fs::create_dir_all(&dump);
+        if let Ok(rd) = std::fs::read_dir(cwd) {
+            for e in rd.flatten() {
+                let _ = std::fs::copy(e.path(), dump.join(e.file_name()));
+            }
+        }
+        let argv: Vec<&str> = args.iter().map(|s| s.as_ref()).collect();
+        let _ = std::fs::write(dump.join("ARGV.txt"), format!("{argv:?}\nelapsed {:?} timed_out {timed_out}\nstdin {}", started.elapsed(), match &input { Input::Null => "null".to_string(), Input::File(p) => p.display().to_string(), Input::Pipe(b) => format!("pipe of {} bytes", b.len()) }));
+        eprintln!("SLOW RUN dumped to {}", dump.display());
+    }
     if timed_out {
         ctx.note_inconclusive(format!("subprocess timed out after {TIMEOUT:?}"));
     }
@@ -158,6 +199,7 @@ pub fn run_bin<S: AsRef<str>>(ctx: &Ctx, bin: &Path, args: &[S], input: Input<'_
         stdout: output.stdout,
         stderr: output.stderr,
         timed_out,
+        elapsed_ms: started.elapsed().as_millis() as u64,
     }
 }
 
